@@ -741,7 +741,7 @@ class Screen(BaseScreen, RealTerminal):
     ) -> tuple[
         list[tuple[object, Literal["0", "U"] | None, bytes]],
         int,
-        tuple[object, Literal["0", "U"] | None, bytes],
+        tuple[object, Literal["0", "U"] | None, bytes] | None,
     ]:
         """On the last row we need to slide the bottom right character
         into place. Calculate the new line, attr and an insert sequence
@@ -757,6 +757,10 @@ class Screen(BaseScreen, RealTerminal):
         z_attr, z_cs, last_text = row[-1]
         last_cols = str_util.calc_width(last_text, 0, len(last_text))
         last_offs, z_col = str_util.calc_text_pos(last_text, 0, len(last_text), last_cols - 1)
+        if last_offs == 0 and len(row) == 1:
+            # the whole row is a single character (one double-width character on a two
+            # column screen): there is nothing to slide in front of it, draw it as is
+            return row, 0, None
         if last_offs == 0:
             z_text = last_text
             del new_row[-1]
